@@ -225,4 +225,41 @@ def anyComponent (R : Policy) (q1 : A.D → Bool) (q2 : B.D → Bool) (x : Prod 
   let x' := reduce A B R x
   q1 x'.d1 || q2 x'.d2
 
+/-! ### `relation_with(c)` and `maximize` / `minimize` -/
+
+/-- the three definite facts of a `Poly_Con_Relation` -/
+structure Rel3 where
+  included : Bool
+  disjoint : Bool
+  saturates : Bool
+deriving Repr, DecidableEq
+
+/-- the rule of `Partially_Reduced_Product::relation_with`: a fact is reported as soon as one
+    component reports it (`if (relation1.implies(…)) … else if (relation2.implies(…)) …`) -/
+def relCombine (a b : Rel3) : Rel3 :=
+  ⟨a.included || b.included, a.disjoint || b.disjoint, a.saturates || b.saturates⟩
+
+def relationWith (R : Policy) (q1 : A.D → Rel3) (q2 : B.D → Rel3) (x : Prod A B) : Rel3 :=
+  let x' := reduce A B R x
+  relCombine (q1 x'.d1) (q2 x'.d2)
+
+/-- `maximize(e, n, d, max)`: `none` if neither component is bounded; the value of the only
+    bounded one; otherwise the value of `d1` when `sup1 ≥ sup2`, else that of `d2`
+    (`if (sup2_d * sup1_n >= sup1_d * sup2_n)`) -/
+def prodMaximize (R : Policy) (x : Prod A B) (e : LE) : Option (Int × Int × Bool) :=
+  let x' := reduce A B R x
+  match A.maximize x'.d1 e, B.maximize x'.d2 e with
+  | none, none => none
+  | some a, none => some a
+  | none, some b => some b
+  | some a, some b => if b.2.1 * a.1 ≥ a.2.1 * b.1 then some a else some b
+
+def prodMinimize (R : Policy) (x : Prod A B) (e : LE) : Option (Int × Int × Bool) :=
+  let x' := reduce A B R x
+  match A.minimize x'.d1 e, B.minimize x'.d2 e with
+  | none, none => none
+  | some a, none => some a
+  | none, some b => some b
+  | some a, some b => if b.2.1 * a.1 ≤ a.2.1 * b.1 then some a else some b
+
 end PPLV.Product
